@@ -27,7 +27,7 @@ from .interp import int_type
 NORETURN = frozenset(['error', 'error_at', 'error_tok', 'exit', '_exit', 'abort', '__assert_fail'])
 
 
-class Unsupported(Exception):
+class Unsupported(AnalysisBroken):
     """the summariser met a construct it does not model on a path it needs"""
 
 
@@ -517,7 +517,11 @@ class SymExec:
             v = self.field_hook(base, n.name)
             if v is not None:
                 return v
-        return ('fld', base, n.name)
+        r = ('fld', base, n.name)
+        for e in reversed(self.events):
+            if e[0] == 'store' and e[1] == r:
+                return e[2]          # a field written earlier on this path
+        return r
 
     def e_ArraySubscriptExpr(self, n, env):
         return ('idx', self.eval(n.inner[0], env), self.eval(n.inner[1], env))
